@@ -306,12 +306,13 @@ impl<'a> RoundTrip<'a> {
 }
 /// C01: the PMTiles root / leaf directory split.  Bisects the number of tiles at which the writer stops
 /// putting all entries into the root directory and round-trips the sizes around that boundary.
-fn pmtiles_root_boundary(rtp: &RoundTrip, rng: &mut Rng, viol: &mut Vec<V>, stats: &mut BTreeMap<String, u64>, thorough: bool) {
+fn pmtiles_root_boundary(rtp: &RoundTrip, rng: &mut Rng, viol: &mut Vec<V>, stats: &mut BTreeMap<String, u64>, thorough: bool, tj: Option<&TileJSON>) {
 	let all: Vec<((u8, u32, u32), Vec<u8>)> = { let mut seen = std::collections::HashSet::new(); let mut v = vec![];
 		while v.len() < 13000 { let c = (13u8, rng.below(8192) as u32, rng.below(8192) as u32); if seen.insert(c) { let n = 1 + rng.below(60) as usize; v.push((c, rng.bytes(n))); } } v };
 	let write = |n: usize| -> Option<(Vec<u8>, u64)> {
 		let p = rtp.dir.join("boundary.pmtiles"); let _ = std::fs::remove_file(&p);
 		let mut src = MemSource::new("mem", all[..n].to_vec(), TileFormat::PNG, TileCompression::Uncompressed);
+		if let Some(t) = tj { src = src.with_tilejson(t.clone()); }
 		match guarded(|| rtp.rt.block_on(write_to_filename(&mut src, p.to_str().unwrap()))) { Ok(Ok(())) => {} _ => return None }
 		let b = std::fs::read(&p).ok()?; let leaf_len = u64::from_le_bytes(b[48..56].try_into().ok()?); Some((b, leaf_len)) };
 	// largest n whose directory is root-only
@@ -322,7 +323,7 @@ fn pmtiles_root_boundary(rtp: &RoundTrip, rng: &mut Rng, viol: &mut Vec<V>, stat
 	let around: Vec<usize> = if thorough { (lo.saturating_sub(60)..lo + 120).collect() } else { (lo.saturating_sub(6)..lo + 60).step_by(3).chain(lo.saturating_sub(2)..lo + 3).collect() };
 	// sizes on both sides of the multiples of the leaf size (4096 entries): one, two, three and four leaves, the last
 	// one full, nearly empty or holding a single entry
-	let around: Vec<usize> = around.into_iter().chain([4095usize, 4096, 4097, 4099, 5199, 8191, 8193, 8195, 12289, 12291, 12999]).chain(if thorough { (12280..12300).collect::<Vec<_>>() } else { vec![] }).collect();
+	let around: Vec<usize> = if tj.is_some() { (lo.saturating_sub(if thorough { 40 } else { 10 })..=lo + 2).step_by(if thorough { 1 } else { 2 }).collect() } else { around.into_iter().chain([4095usize, 4096, 4097, 4099, 5199, 8191, 8193, 8195, 12289, 12291, 12999]).chain(if thorough { (12280..12300).collect::<Vec<_>>() } else { vec![] }).collect() };
 	for n in around {
 		if n == 0 || n > all.len() { continue; }
 		let desc = format!("pmtiles PNG Uncompressed tiles={n} (root-only limit of this set: {lo} tiles)");
@@ -334,7 +335,10 @@ fn pmtiles_root_boundary(rtp: &RoundTrip, rng: &mut Rng, viol: &mut Vec<V>, stat
 			Ok(d) => if d.tiles != expect { viol.push(V { kind: "layout-content".into(), input: desc.clone(), detail: "independent decoder recovers a different mapping".into() }); }
 		}
 		match guarded(|| rtp.rt.block_on(versatiles_container::PMTilesReader::open_reader(Box::new(versatiles_core::io::DataReaderBlob::from(bytes.clone()))))) {
-			Ok(Ok(r)) => { for (c, d) in all[..n].iter().step_by(37) { let got = rtp.rt.block_on(r.get_tile_data(&TileCoord3 { x: c.1, y: c.2, z: c.0 })); if !matches!(&got, Ok(Some(b)) if b.as_slice() == d.as_slice()) { viol.push(V { kind: "lookup".into(), input: desc.clone(), detail: format!("tile {:?} is not returned intact", c) }); break; } } }
+			Ok(Ok(r)) => {
+				// the TileJSON the source handed over comes back (zoom range and bounds narrowed to the coverage at most)
+				if let Some(doc) = tj { if let Some(d) = tilejson_diff(doc, r.get_tilejson(), &r.get_parameters().bbox_pyramid) { viol.push(V { kind: "metadata".into(), input: desc.clone(), detail: d }); } }
+				for (c, d) in all[..n].iter().step_by(37) { let got = rtp.rt.block_on(r.get_tile_data(&TileCoord3 { x: c.1, y: c.2, z: c.0 })); if !matches!(&got, Ok(Some(b)) if b.as_slice() == d.as_slice()) { viol.push(V { kind: "lookup".into(), input: desc.clone(), detail: format!("tile {:?} is not returned intact", c) }); break; } } }
 			other => viol.push(V { kind: "open-error".into(), input: desc.clone(), detail: format!("written container can not be opened again: {}", match other { Ok(Err(e)) => format!("{e:#}"), Err(m) => m, _ => String::new() }) }),
 		}
 	}
@@ -362,9 +366,11 @@ pub fn run_meta(ctx: &Ctx, col: &mut Collector) -> Result<()> {
 			*stats.entry("metadata_roundtrips".into()).or_insert(0) += 1;
 		}
 	}
+	// PMTiles archives whose root directory just fits / just does not fit in front of the metadata (the root is written last)
+	{ let tj = tilejson(&mut rng); pmtiles_root_boundary(&rtp, &mut rng, &mut viol, &mut stats, ctx.thorough, Some(&tj)); }
 	let _ = std::fs::remove_dir_all(&dir);
 	for x in &viol { col.violation(&x.kind, &x.input, &x.input, &x.detail); }
-	col.spec_cases += stats.get("metadata_roundtrips").copied().unwrap_or(0);
+	col.spec_cases += stats.get("metadata_roundtrips").copied().unwrap_or(0) + stats.get("boundary_roundtrips").copied().unwrap_or(0);
 	for (k, v) in stats { col.bump(&k, v); }
 	Ok(())
 }
@@ -402,7 +408,7 @@ pub fn run_into(ctx: &Ctx, focus: &str, col: &mut Collector) -> Result<()> {
 		*stats.entry(format!("tiles_{}", match tiles.len() { 0..=9 => "1-9", 10..=199 => "10-199", 200..=9999 => "200-9999", _ => "10000+" })).or_insert(0) += 1;
 	}
 	for l in rtp.lines.borrow().iter() { col.out.line(l); }
-	if focus == "c01" { pmtiles_root_boundary(&rtp, &mut rng, &mut viol, &mut stats, ctx.thorough); }
+	if focus == "c01" { pmtiles_root_boundary(&rtp, &mut rng, &mut viol, &mut stats, ctx.thorough, None); }
 	if focus == "c01" { let cs: Vec<(u8, u32, u32)> = all_coords.iter().cloned().take(3000).collect(); crate::pmcorr::lines(col, &mut rng, &cs, ctx.thorough); }
 	let _ = std::fs::remove_dir_all(&dir);
 	for x in &viol { col.violation(&x.kind, &x.input, &x.input, &x.detail); }
